@@ -1,6 +1,6 @@
 // C06: radix conversion is exact in every base and round-trips
 #include "../harness/gen.hpp"
-#include "gmp-mparam.h"
+#include "../harness/thresholds.hpp"
 #include <cstdio>
 using namespace eng; using namespace gen; using ref::Int;
 
@@ -197,7 +197,8 @@ static void case_mpq(ByteSource& in, CaseInfo& ci) {
     if (status == 0) { REQUIRE(rc == 0, "mpq_set_str(base=%d) rejected \"%.80s\"", base, s.c_str()); REQUIRE(int_from_mpz(mpq_numref(q)) == n.value, "mpq_set_str: wrong numerator"); REQUIRE(int_from_mpz(mpq_denref(q)) == (has_den ? d.value : Int(1)), "mpq_set_str: wrong denominator"); }
     else if (status == -1) REQUIRE(rc == -1, "mpq_set_str(base=%d) returned %d for invalid \"%.80s\"", base, rc, s.c_str());
   } else {        // mpq_get_str
-    if (base == 0) base = 10; bool negbase = base <= 36 && in.chance(60); Int N = gen_value(in, base, ci), D = gen_value(in, base, ci); if (D.is_zero()) D = Int(1); if (in.flag()) N = -N; if (in.chance(50)) D = Int(1);
+    if (base == 0) base = 10; if (base > 36) base = 2 + base % 35;   /* manual: mpq_get_str base 2..36 (asserted with --enable-assert) */
+    bool negbase = in.chance(60); Int N = gen_value(in, base, ci), D = gen_value(in, base, ci); if (D.is_zero()) D = Int(1); if (in.flag()) N = -N; if (in.chance(50)) D = Int(1);
     mpz_from_int(mpq_numref(q), N); mpz_from_int(mpq_denref(q), D);
     std::string e = ref::to_string(N, base, negbase); if (!(D == Int(1))) e += "/" + ref::to_string(D, base, negbase);
     ci.label("mpq_get_str"); ci.nontrivial = N.size() >= 2; ci.d("mpq_get_str base=%d ", negbase ? -base : base); DESC(ci, "n=" + show(N, 48) + " d=" + show(D, 48));
